@@ -1,11 +1,11 @@
 (* C04 - Client: replies are matched to requests by id, whatever the peer's ordering.
-   Property theorems only; every proof is `exact <lemma>` (lemmas in coq/cli/CliProofs.v, invariant in
-   coq/cli/CliInv.v).  [traces_to c tr s]: s is the state of the client model after the label sequence
+   Property theorems only; every proof is `exact <lemma>` (lemmas in coq/cli/CliProofs.v, CliHist.v, CliSend.v, CliFed.v;
+   invariants in coq/cli/CliInv.v, CliCtx.v, CliOps.v, CliHist.v, CliSend.v).  [traces_to c tr s]: s is the state of the client model after the label sequence
    tr (any interleaving of API calls, context ends, peer records, transport faults and goroutine
    releases) from the initial state with hook configuration c. *)
 From Coq Require Import List NArith ZArith Bool Arith.
 From RecordUpdate Require Import RecordUpdate.
-From JV Require Import Bytes Msg CliModel CliLemmas CliInv CliProofs.
+From JV Require Import Bytes Msg CliModel CliLemmas CliInv CliProofs CliCtx CliOps CliHist CliSend CliFed.
 Import ListNotations.
 
 (* ids allocated are pairwise distinct; no two pending entries share an id; every pending entry is the
@@ -28,17 +28,95 @@ Theorem c04_slot_single_writer : forall c tr s, traces_to c tr s ->
 Proof. exact slot_single_writer. Qed.
 Print Assumptions c04_slot_single_writer.
 
-(* what delivering one member does in any reachable state: requests/notifications and members whose id
-   is not pending (unknown, duplicate, "1" for 1, null, absent, rejected) complete nothing; a reply whose
-   id is pending is written to exactly the slot registered under that id, whose own id is that id, the
-   entry leaves the pending set and no other slot changes.
-   FULL STATEMENT NOT YET PROVED (hence _partial): "for every trace, if ORet n (RetCall r) is in the
-   history then r = call_res (val_of_member j k m) for a member m of inbound record j with
-   fix_id (j_id m) = the id sent for n, and (j,k) is the first such member delivered while n was
-   pending; Batch analogously per entry, in spec order".  Missing: the invariant tying the ghost source
-   (v_src) of slot values and the returned value to the delivery log (stability of written slots across
-   steps); the local statement below plus c04_slot_single_writer (no second write) are its ingredients. *)
-Theorem c04_reply_is_peers_partial : forall c tr s, traces_to c tr s -> forall j k m,
+(* THE REPLY IS THE PEER'S (full statement, every trace).
+   [evlog (init_of c) tr] is the delivery log of the run (CliHist.v): in order of occurrence, every reply-shaped
+   member handed to deliverLocked ([DMember j k m tgt]: member m at position k of inbound record j; tgt = what the
+   lookup of its id in the pending set returned at that moment) and every watcher critical section ([DWatch i w]).
+   [answered_by s log i sl v e] (CliHist.v): slot i (sl) holds v; e is the ONE event of the log that found the
+   slot's id pending - [filter (hits id) log = [e]] - and v is its value; if e is a member delivery then m is member
+   k of record j of the delivery records of s, reply-shaped, fixID(m.id) = the slot's id, it was written to slot i
+   and v = val_of_member j k m; if e is the slot's watcher then v is the context's own error (or an internal error
+   carrying the stop cause) and the slot's context ended because the caller's context ended or the client stopped.
+   Call: if [ORet n (RetCall r)] is in the history then r = call_res v for the value v of the slot allocated by
+   n, answered as above.  Batch: the responses are, per slot of n in allocation (= spec) order, the pair of the
+   slot's id and batch_res of the slot's value, each answered as above. *)
+Theorem c04_reply_is_peers : forall c tr s, traces_to c tr s ->
+  (forall n r, In (ORet n (RetCall r)) (hist s) ->
+     exists o i rest sl v e,
+       op_at s n = Some o /\ o_kind o = KCall /\ o_slots o = i :: rest /\ slot_at s i = Some sl /\ sl_op sl = n
+       /\ answered_by s (evlog (init_of c) tr) i sl v e /\ r = call_res v)
+  /\ (forall n rs, In (ORet n (RetBatch rs)) (hist s) ->
+        exists o, op_at s n = Some o /\ o_kind o = KBatch
+          /\ Forall2 (fun i p => exists sl v e, slot_at s i = Some sl /\ sl_op sl = n
+                                   /\ answered_by s (evlog (init_of c) tr) i sl v e
+                                   /\ p = (id_text (sl_id sl), batch_res v)) (o_slots o) rs).
+Proof. exact reply_is_peers. Qed.
+Print Assumptions c04_reply_is_peers.
+
+(* "the FIRST such member delivered while the entry was pending": the answering event is the only event of the
+   whole log that found the id pending; the log splits around it into a part before and a part after in which no
+   event found that id pending (members carrying the id there were dropped: tgt = None) *)
+Theorem c04_answer_first_only : forall s log i sl v e, answered_by s log i sl v e ->
+  (forall e', In e' log -> hits (id_text (sl_id sl)) e' = true -> e' = e)
+  /\ exists l1 l2, log = l1 ++ e :: l2 /\ filter (hits (id_text (sl_id sl))) l1 = [] /\ filter (hits (id_text (sl_id sl))) l2 = [].
+Proof. exact answered_only. Qed.
+Print Assumptions c04_answer_first_only.
+
+(* the delivery records are the peer's: the message arrays fed by the environment (LFeed labels of the trace) are,
+   in order, those picked up by the reader so far followed by those still queued; hence the member (j, k) of the
+   delivery log named in c04_reply_is_peers is member k of the j-th array the peer sent *)
+Theorem c04_delivered_are_fed : forall c tr s, traces_to c tr s ->
+  fed tr = map d_msgs (delivs s) ++ flat_map feed_msgs (ch_in s)
+  /\ (forall j k m, member_at s j k m -> exists ms, nth_error (fed tr) j = Some ms /\ nth_error ms k = Some m).
+Proof. exact delivered_are_fed. Qed.
+Print Assumptions c04_delivered_are_fed.
+
+(* the id the replies are matched under is the id that went out on the wire: a returned Call sent one request
+   carrying its slot's id; a returned Batch sent one record with one member per spec, and its responses are, in
+   order, those for the ids at the non-notification positions of that record (one response per non-notification
+   spec, in spec order, notifications omitted) *)
+Theorem c04_wire_ids : forall c tr s, traces_to c tr s ->
+  (forall n r, In (ORet n (RetCall r)) (hist s) ->
+     exists o i sl sp, op_at s n = Some o /\ o_specs o = [sp] /\ sp_notify sp = false /\ o_slots o = [i] /\ slot_at s i = Some sl
+       /\ In (OSendReq true false [(id_text (sl_id sl), sp_method sp, sp_params sp)]) (hist s))
+  /\ (forall n rs, In (ORet n (RetBatch rs)) (hist s) ->
+        exists o ms, op_at s n = Some o /\ In (OSendReq true (negb (length (o_specs o) =? 1)) ms) (hist s)
+          /\ length ms = length (o_specs o) /\ map fst rs = nn_ids (o_specs o) ms /\ length rs = nn (o_specs o)).
+Proof. exact wire_ids. Qed.
+Print Assumptions c04_wire_ids.
+
+(* per-operation determinacy: if the caller's context did not end and the client did not stop, the value returned
+   is a function of the payload of the members carrying the request's id alone ([answers s key f a]: every
+   reply-shaped member with id key among all records delivered, in whatever order and grouping, has f m = a) *)
+Theorem c04_reply_determined : forall c tr s, traces_to c tr s ->
+  forall n o, op_at s n = Some o -> o_ctx o = None -> err s = None ->
+  (forall r key a, In (ORet n (RetCall r)) (hist s) -> hd_error (op_ids s n) = Some key -> answers s key member_res a -> r = a)
+  /\ (forall rs key r1 a, In (ORet n (RetBatch rs)) (hist s) -> In (key, r1) rs -> answers s key member_bres a -> r1 = a).
+Proof. exact reply_determined. Qed.
+Print Assumptions c04_reply_determined.
+
+(* order irrelevance: two runs - any two configurations, schedules, orders, partitions into arrays, duplications
+   of the peer's records - in which operation n put the same id on its request and the peer answers that id with
+   the same payload return the same value (Call), resp. the same response for every id (Batch) *)
+Theorem c04_order_irrelevant : forall c1 tr1 s1 c2 tr2 s2, traces_to c1 tr1 s1 -> traces_to c2 tr2 s2 ->
+  forall n o1 o2, op_at s1 n = Some o1 -> op_at s2 n = Some o2 ->
+    o_ctx o1 = None -> o_ctx o2 = None -> err s1 = None -> err s2 = None ->
+    (forall key a r1 r2,
+       hd_error (op_ids s1 n) = Some key -> hd_error (op_ids s2 n) = Some key ->
+       answers s1 key member_res a -> answers s2 key member_res a ->
+       In (ORet n (RetCall r1)) (hist s1) -> In (ORet n (RetCall r2)) (hist s2) -> r1 = r2)
+    /\ (forall rs1 rs2 key a r1 r2,
+          In (ORet n (RetBatch rs1)) (hist s1) -> In (ORet n (RetBatch rs2)) (hist s2) ->
+          In (key, r1) rs1 -> In (key, r2) rs2 ->
+          answers s1 key member_bres a -> answers s2 key member_bres a -> r1 = r2).
+Proof. exact order_irrelevant. Qed.
+Print Assumptions c04_order_irrelevant.
+
+(* local form (ingredient of c04_reply_is_peers): what delivering one member does in any reachable state:
+   requests/notifications and members whose id is not pending (unknown, duplicate, "1" for 1, null, absent,
+   rejected) complete nothing; a reply whose id is pending is written to exactly the slot registered under that
+   id, whose own id is that id, the entry leaves the pending set and no other slot changes *)
+Theorem c04_deliver_local : forall c tr s, traces_to c tr s -> forall j k m,
   (is_req_or_notif m = true ->
      slots (deliver_member j k m s) = slots s /\ pending (deliver_member j k m s) = pending s)
   /\ (is_req_or_notif m = false -> assoc (fix_id (j_id m)) (pending s) = None -> deliver_member j k m s = s)
@@ -49,7 +127,7 @@ Theorem c04_reply_is_peers_partial : forall c tr s, traces_to c tr s -> forall j
                    /\ pending (deliver_member j k m s) = assoc_del (fix_id (j_id m)) (pending s)
                    /\ crash (deliver_member j k m s) = None).
 Proof. exact (fun c tr s T j k m => deliver_member_spec j k m s (inv1_reach c s (traces_reach c tr s T))). Qed.
-Print Assumptions c04_reply_is_peers_partial.
+Print Assumptions c04_deliver_local.
 
 (* the value carried to the caller is the member's error object if it has one (a deferred validation
    error first) and its result otherwise, tagged with the member's own id *)
